@@ -790,6 +790,31 @@ func runHistory(c *mon.Case, r *mon.Run, name string, steps []step, allTorn, val
 		} else {
 			r.Count("bridgeline_file_agrees", 1)
 		}
+		// failures instead of crashes: every mutating call of this start in turn
+		// returns an error (no space left, I/O error) and the start goes on as it
+		// sees fit — it may fail or succeed; what it leaves behind must start with
+		// the persisted identity
+		if si > 0 && id.cert != "" && res.out.OK {
+			want := identity{cert: id.cert, iat: map[string]bool{res.out.IAT: true}}
+			for k := range prevIAT {
+				want.iat[k] = true
+			}
+			dir := filepath.Join(work, "op")
+			for k, cl := range res.calls {
+				errno := "ENOSPC"
+				if strings.HasPrefix(cl.name, "unlink") {
+					errno = "EIO"
+				}
+				pre.writeTo(dir)
+				straceRun(work, fmt.Sprintf("inject=%s:error=%s:when=%d", cl.name, errno, cl.nth), append([]string{"obfs4-start", dir}, st.args...)...)
+				got := readDir(dir)
+				r.Count("starts_with_an_injected_io_error", 1)
+				if !got.equal(pre) {
+					r.Count("starts_with_an_injected_io_error_that_changed_the_directory", 1)
+				}
+				judgeStart(c, r, work, crashState{st: got, k: k, desc: fmt.Sprintf("call %d of %d (%s) failed with %s and the start went on", k+1, len(res.calls), cl.name, errno)}, want, hist+"+io-error", si)
+			}
+		}
 		// two crashes in a row: from the states a crash of this start can leave
 		// (those that are neither what it began with nor what it ends with), a
 		// plain start is traced in turn, and every crash state of that one must
